@@ -20,6 +20,7 @@ REC_WF = "is_none(read.qualities) or len(val(read.qualities)) == len(read.sequen
 @contract("modifiers.py", "UnconditionalCutter.__call__", props=["C03", "C10"])
 def unconditional_cutter(c):
     c.types(self=ObjT("UnconditionalCutter", length=Int), read=Record, info=InfoT)
+    c.modifies = ["info.cut_prefix", "info.cut_suffix"]
     c.spec(record_spec)
     c.requires(nonzero="self.length != 0", rec=REC_WF)
     c.ensures(
